@@ -1256,3 +1256,84 @@ Definition part_desc (v : list net) (vsg : bool) (off : list net) (w stride : Z)
 Definition meminit_rows (w words data : Z) : list Z :=
   map (fun k => mask w (Z.shiftr data (w * Z.of_nat k))) (seq 0 (Z.to_nat words)).
 Definition MemI (w size data : Z) : memdecl := Mem w size (meminit_rows w size data).
+
+(* ====================================================================== *)
+(* 6. _ir.NetlistEmitter.emit_assign: an assignment target lowered to windowed, conditional Assignments             *)
+(* ====================================================================== *)
+(* a condition net described by the chain of Match cells producing it (emit_match(en, value, patterns)[bit]) *)
+Inductive acond := ATrue | AMatch (en : acond) (sel : list net) (pats : list (list pattern)) (bit : nat).
+Fixpoint aval (rho : valuation) (c : acond) : bool :=
+  match c with
+  | ATrue => true
+  | AMatch en sel pats bit => aval rho en && first_match (nval rho sel) pats bit
+  end.
+
+(* to_binary(idx, w) and "-" * w as patterns (MSB first) *)
+Definition to_binary (w : nat) (idx : Z) : pattern := map (fun k => Some (Z.testbit idx (Z.of_nat k))) (rev (seq 0 w)).
+Definition dashes (w : nat) : pattern := repeat None w.
+
+(* one _nir.Assignment appended to the driver of signal wa_sig *)
+Record wassign := WA { wa_sig : nat; wa_cond : acond; wa_start : Z; wa_val : list net }.
+
+Section EmitAssign.
+  (* the nets emit_rhs returns for a part-select offset / a choice selector *)
+  Variable selnets : expr -> list net.
+
+  (* emit_assign(lhs, lhs_start, rhs, cond): assign rhs to lhs[lhs_start : lhs_start + len(rhs)] *)
+  Fixpoint emit_assign (lhs : expr) (start : Z) (rhs : list net) (cond : acond) : list wassign :=
+    match lhs with
+    | ESig i _ => [WA i cond start rhs]
+    | EOp1 OU a | EOp1 OS a => emit_assign a start rhs cond
+    | ESlice a lo hi => emit_assign a (start + lo) rhs cond
+    | ECat parts =>
+        (fix go (ps : list expr) (part_stop : Z) : list wassign :=
+           match ps with
+           | [] => []
+           | p :: ps' =>
+               let part_start := part_stop in
+               let part_stop := part_start + ewidth p in
+               if part_stop <=? start then go ps' part_stop
+               else if start + nlen rhs <=? part_start then go ps' part_stop
+               else
+                 let pls := if start <? part_start then 0 else start - part_start in
+                 let prs := if start <? part_start then part_start - start else 0 in
+                 let pre := if part_stop <=? start + nlen rhs then part_stop - start else nlen rhs in
+                 emit_assign p pls (nslice rhs prs pre) cond ++ go ps' part_stop
+           end) parts 0
+    | EPart a off w st =>
+        let offn := selnets off in
+        let width := ewidth a in
+        let ncases := Z.to_nat (Z.min ((width + st - 1) / st) (2 ^ nlen offn)) in
+        let pats := map (fun k => [to_binary (length offn) (Z.of_nat k)]) (seq 0 ncases) in
+        (fix go (ks : list nat) : list wassign :=
+           match ks with
+           | [] => []
+           | k :: ks' =>
+               let s := start + Z.of_nat k * st in
+               (if width <=? s then []
+                else emit_assign a s (if width <=? s + nlen rhs then firstn (Z.to_nat (width - s)) rhs else rhs)
+                                 (AMatch cond offn pats k))
+               ++ go ks'
+           end) (seq 0 ncases)
+    | ESwitch t cs =>
+        let tn := selnets t in
+        let pats := map (fun c : option (list pattern) * expr =>
+                           match fst c with Some ps => ps | None => [dashes (length tn)] end) cs in
+        (fix go (cs : list (option (list pattern) * expr)) (k : nat) : list wassign :=
+           match cs with
+           | [] => []
+           | c :: cs' =>
+               (* rhs[:len(val)] — NOT rhs[:len(val) - lhs_start]: finding C04-emit-assign-choice-window *)
+               emit_assign (snd c) start (firstn (Z.to_nat (ewidth (snd c))) rhs) (AMatch cond tn pats k)
+               ++ go cs' (S k)
+           end) cs 0%nat
+    | _ => []
+    end.
+End EmitAssign.
+
+(* the AssignmentList semantics restricted to one signal of width w *)
+Definition wa_step (rho : valuation) (i : nat) (w : Z) (acc : Z) (a : wassign) : Z :=
+  if Nat.eqb (wa_sig a) i && aval rho (wa_cond a)
+  then put w acc (wa_start a) (nlen (wa_val a)) (nval rho (wa_val a)) else acc.
+Definition wa_run (rho : valuation) (i : nat) (w : Z) (l : list wassign) (acc : Z) : Z :=
+  fold_left (wa_step rho i w) l acc.
